@@ -3641,7 +3641,8 @@ FROM (
 
         sql = f"SELECT {', '.join(cols)} FROM ({validation_sql}) AS t"
         if imbalance_sql is not None and join_cond is not None:
-            sql += f" JOIN ({imbalance_sql}) AS i ON {join_cond}"
+            # LEFT: a datapoint without a partner in the imbalance operand is still reported
+            sql += f" LEFT JOIN ({imbalance_sql}) AS i ON {join_cond}"
         if node.invalid:
             sql += f" WHERE {bool_ref} IS FALSE"
         return sql
